@@ -13,7 +13,7 @@
       [ack_ranges_ok]           descending, Smallest <= Largest, disjoint and non-adjacent
       [pending tr]              receive time of the first accepted, still unacknowledged ack-eliciting app-data packet *)
 From Coq Require Import List ZArith Bool.
-From V Require Import Gen.Params RecvPH.Model RecvPH.ProofsHist RecvPH.ProofsAck RecvPH.ProofsDue RecvPH.ProofsDup RecvPH.ProofsMissing RecvPH.ProofsNonempty RecvPH.ProofsGap RecvPH.ProofsImmediate RecvPH.ProofsDupTrace RecvPH.ProofsTimer RecvPH.ProofsGlue RecvPH.DupAlways.
+From V Require Import Gen.Params RecvPH.Model RecvPH.ProofsHist RecvPH.ProofsAck RecvPH.ProofsDue RecvPH.ProofsDup RecvPH.ProofsMissing RecvPH.ProofsNonempty RecvPH.ProofsGap RecvPH.ProofsImmediate RecvPH.ProofsDupTrace RecvPH.ProofsTimer RecvPH.ProofsGlue RecvPH.DupAlways RecvPH.ProofsCovered.
 From V Require RunLoop.Model.
 Import ListNotations.
 Open Scope Z_scope.
@@ -505,3 +505,43 @@ Example C07_example_alarm :
   aAckAlarm (hApp (fst (run newHandler ops))) = 5000000 + rph_MaxAckDelay.
 Proof. vm_compute. auto. Qed.
 Print Assumptions C07_example_alarm.
+
+(** The coverage clause as ONE statement over handler histories ([pendset tr]: the accepted
+    ack-eliciting application-data packets since the last ACK frame generated for that space;
+    [pending tr = Some t]: [t] is the arrival of the oldest of them). Every such packet is covered by
+    an ACK that becomes due no later than MaxAckDelay after the oldest arrival (C07_ack_leaves_by_deadline
+    carries the deadline through the connection's timer), or it is below the space's threshold -
+    forgotten by the peer's permission or pushed out by the range limit (C07_threshold_origin).
+    The frame whose generation clears the queue/alarm is the one that lists them. *)
+Theorem C07_every_packet_covered : forall (ops : list op) t,
+  let h := fst (run newHandler ops) in
+  let tr := trace newHandler ops in
+  pending tr = Some t -> 0 <= t ->
+  (aAckQueued (hApp h) = true \/ aAckAlarm (hApp h) = t + rph_MaxAckDelay) /\
+  pendset tr <> [] /\
+  forall now only,
+    only = false \/ aAckQueued (hApp h) = true \/ t + rph_MaxAckDelay <= now ->
+    exists f, snd (h_get_ack h rph_Enc1RTT now only) = Some f /\
+      (forall q, In q (pendset tr) ->
+         accepted tr 2 q /\
+         (inR q (aRanges f) \/ q < deletedBelow (tHist (aTr (hApp h))))) /\
+      pending (tr ++ [(GetAck rph_Enc1RTT now only, RAck (Some f))]) = None /\
+      pendset (tr ++ [(GetAck rph_Enc1RTT now only, RAck (Some f))]) = [].
+Proof. exact every_packet_covered. Qed.
+Print Assumptions C07_every_packet_covered.
+
+Example C07_example_covered :
+  let ops := [Recv 1 1 rph_Enc1RTT 1000000 true; Recv 3 1 rph_Enc1RTT 2000000 true] in
+  pending (trace newHandler ops) = Some 1000000 /\ pendset (trace newHandler ops) = [3; 1] /\
+  option_map aRanges (snd (h_get_ack (fst (run newHandler ops)) rph_Enc1RTT 2000000 true)) = Some [(3, 3); (1, 1)].
+Proof. vm_compute. auto. Qed.
+Print Assumptions C07_example_covered.
+
+(** (a) in the stronger form: every number in a generated ACK frame was ACCEPTED in that space
+    (ReceivedPacket returned nil), not merely passed to ReceivedPacket (audit problem 6). *)
+Theorem C07_ack_sound_accepted : forall (ops : list op) lvl now only f,
+  let h := fst (run newHandler ops) in
+  snd (h_get_ack h lvl now only) = Some f ->
+  exists sp, sp_of lvl = Some sp /\ forall q, inR q (aRanges f) -> accepted (trace newHandler ops) sp q.
+Proof. exact ack_sound_accepted. Qed.
+Print Assumptions C07_ack_sound_accepted.
